@@ -46,7 +46,7 @@ CHECKS = {
     "C14": dict(
         text="SyncRpcClient._send_pdu and AsyncRpcClient._send_pdu are executed against a transport stub whose read sizes are solver variables (every cut position incl. "
              "inside the 16-byte header, 12 listed positions inside long body reads, replies of 24..64 bytes and of 324 bytes (thorough up to 65024), 2-3 symbolic chunks quick, up to 5 thorough) and whose EOF point is a solver variable over every byte offset; z3/path exploration "
-             "shows the decoded PDU equals the unsegmented decode on every path and that every early EOF raises within the step budget.",
+             "shows the decoded PDU equals the unsegmented decode on every path and that every early EOF raises within the step budget; two client objects interleaved at a blocking read each decode their own reply.",
         note="Trusted: interpreter, the recv/recv_into/readexactly contracts as stubbed. More symbolic chunks, other reply sizes and unlisted cut positions inside long reads are outside the claim."),
     "C13": dict(
         text="RpcClient._create_request/_prepare_pdu (with Request.pack, SecTrailer.pack, VerificationTrailer.pack) are executed for each listed stub length with symbolic stub "
@@ -83,7 +83,7 @@ CHECKS = {
         text="ncrypt_protect_secret -> (optional re-pack to the trailing layout) -> ncrypt_unprotect_secret (and the async twins) are executed end to end, offline, with symbolic "
              "plaintext content, 64 symbolic root-key bytes and a symbolic clock inside windows containing L2/L1/L0 boundaries, against ideal KDF/AEAD/key-wrap/RNG stubs; on "
              "every path z3 proves the returned bytes equal the plaintext symbols and no path ends in an exception. Nonce mode (4 hashes, listed plaintext lengths and SIDs, same or fresh "
-             "KeyCache) and public-key mode (DH / ECDH_P256 / ECDH_P384, the harness plays the DC; decrypted by a root-key holder); also decryption by a process that only holds a DC-issued envelope for one of 12 later positions.",
+             "KeyCache) and public-key mode (DH / ECDH_P256 / ECDH_P384, the harness plays the DC; decrypted by a root-key holder); also decryption by a process that only holds a DC-issued envelope for one of 12 later positions, and a round trip whose plaintext LENGTH is a solver variable (every DER length-form boundary).",
         note="Trusted: interpreter, z3, the ideal-primitive contracts (incl. no collisions between distinct outputs). Bit-level crypto, clock instants outside the windows "
              "(composed from C09 and C02), unlisted lengths/SIDs and P521 are outside this check's claim."),
     "C19": dict(
@@ -94,7 +94,7 @@ CHECKS = {
         note="Trusted: interpreter, z3, the stubs. Statistical quality of the OS RNG is outside the technique; distinctness follows from the RNG assumption."),
     "C04": dict(
         text="A valid blob is produced symbolically by protect (symbolic plaintext, root key, CEK, nonces, ciphertext; both layouts) and then altered: one byte replaced by a "
-             "symbolic value at structural positions (thorough: every position), truncation, deletion and insertion of a symbolic byte, two-site substitutions; a re-keyed forgery (position, key_info, wrapped CEK, nonce and content replaced using only public key material); a forgery into public-key mode with a DH public key in a group of the forger's own or with degenerate / ordinary values in the root key's group (modular exponentiation obeys its exponent-independent laws); content_decrypt on a message of symbolic length (up to 2^18, thorough 2^21) that is truncated / stripped / cut / extended at solver-chosen points; unprotect is "
+             "symbolic value at structural positions (thorough: every position), truncation, deletion and insertion of a symbolic byte, two-site substitutions; a re-keyed forgery (position, key_info, wrapped CEK, nonce and content replaced using only public key material); a forgery into public-key mode with a DH public key in a group of the forger's own or with degenerate / ordinary values in the root key's group (modular exponentiation obeys its exponent-independent laws); an algorithm downgrade (content OID replaced by one of 10 others; non-GCM modes decrypt without authentication in the stub world); content_decrypt on a message of symbolic length (up to 2^18, thorough 2^21) that is truncated / stripped / cut / extended at solver-chosen points; unprotect is "
              "executed on every path and z3 proves that whenever it returns, the bytes equal the original plaintext symbols.",
         note="Trusted: interpreter, z3, the ideal AEAD / key-wrap / KDF contracts (so the claim is: every byte that can influence the result reaches the authenticated "
              "primitives unchanged; GCM/AES-KW strength is outside). Structure-shifting alterations run on a blob whose opaque contents are fixed pseudo-random octets (see "
@@ -110,7 +110,7 @@ CHECKS = {
         text="One inductive step from an arbitrary valid cache state: KeyCache._get_key and _store_key are executed with the stored envelope (absent or at any position of "
              "[0,31]^2 with the chain keys of its own position), the root-key flag and the requested / stored position all symbolic; z3 proves the representation invariant is "
              "preserved, a returned envelope always covers the request and derives the spec key, no RPC is needed when covering material exists, the stored position never "
-             "decreases and a neighbour triple is untouched. The cache methods' ASTs are checked to contain no await, so interleavings are sequences of these steps. The protect glue (_get_protection_gke_from_cache then _store_key) is a third step. Nine "
+             "decreases and a neighbour triple is untouched. The cache methods' ASTs are checked to contain no await, so interleavings are sequences of these steps. The protect glue (_get_protection_gke_from_cache then _store_key) is a third step. Eleven "
              "operation histories (seed-key and public-key replies) run through the public API against a conforming-DC stub with an RPC counter.",
         note="Trusted: interpreter, z3, the invariant (MS-GKDI 2.2.4 shapes), chain-step KDF stub, conforming-DC stub. L0 is a listed dictionary key; await-point interleaving of "
              "the async API is argued from the AST check, not executed."),
@@ -124,7 +124,7 @@ CHECKS = {
     "C17": dict(
         text="The public sync and async APIs are executed end to end against a reference domain controller written in the harness (own PDU / NDR64 / tower / MS-GKDI decoders and "
              "encoders, ideal security context, ideal KDF/AEAD/DH): the DC checks every PDU of the conversation (EPM bind + ept_map for the ISD_KEY tower, connection to the returned "
-             "symbolic port (every port of each decimal digit count, echoed as the bind_ack secondary address), authenticated bind, PKT_PRIVACY-sealed GetKey with the ISD_KEY/NDR64 verification trailer), the decoded request must name exactly the key the blob / "
+             "symbolic port (every port of each decimal digit count, echoed as the bind_ack secondary address), with auth_protocol negotiate / ntlm / kerberos, authenticated bind, PKT_PRIVACY-sealed GetKey with the ISD_KEY/NDR64 verification trailer), the decoded request must name exactly the key the blob / "
              "caller asked for, the result must decrypt, and the sync and async transcripts must be byte-wise equal.",
         note="Trusted: interpreter, z3, the reference DC and stubs. One GetKey per run; blob positions from a 3x3 corner set, listed SIDs/hashes; real NTLM/Kerberos, sockets and "
              "Windows are outside the technique."),
